@@ -3,6 +3,36 @@
 NOT_BUILT = "contracts for the functions this property depends on are not built yet (build in progress, see DESIGN.md section 9); nothing is claimed"
 
 CLAIMED = {
+    "C01": ("symbolic execution of the alignment kernel with loop invariants and ghost inductions + z3/cvc5; symbolic differentiation of every hand-written gradient",
+            "Proof of the parts of the propagation that pyerrors itself implements: (1) _merge_idx: the result is the strictly increasing union of "
+            "the operands' configuration lists, held as a range exactly when equally spaced (1..3 operand lists, any lengths, any kinds); "
+            "(2) _expand_deltas_for_merge: for EVERY configuration of the union the result carries the operand's fluctuation on that configuration "
+            "number times len(union)/len(own) times the scale factor, and zero where the operand was not measured; (3) the missing-replica scale "
+            "factor closure of derived_observable on enumerated chain layouts (ensembles grouped by the text before '|'); (4) for each of the 70 "
+            "man_grad entries and value lambdas of Obs / CObs: man_grad[i] == d(lambda)/dx_i by symbolic differentiation + z3 over the reals.",
+            "DESIGN.md section 6 C01",
+            "NOT decided by this check: the accumulation loop and result assembly of derived_observable (sum over inputs, covobs gradients, "
+            "array_mode), CObs operators as a whole, independence of how an expression is split, autograd / num_grad exactness. Derivative rule "
+            "table is part of the trusted base; transcendental functions are uninterpreted."),
+    "C04": ("symbolic execution of Obs.__init__ over enumerated name lists (well-formed and malformed) with symbolic samples and configuration lists",
+            "Proof for the constructor: every malformed request listed in the property (duplicate / non-string names, unsorted or duplicate "
+            "configuration numbers, length mismatches, fewer than five samples, several ensembles, wrong idl type) raises exactly the stated "
+            "exception class and nothing well-formed is rejected (raises clauses are iff); every accepted request yields an object with sorted "
+            "names, idl equal to the given numbers and held as a range exactly when equally spaced (induction ghost), shape == len(idl) == "
+            "len(deltas), r_values / deltas / value as defined, N == sum of the chain lengths.",
+            "DESIGN.md section 6 C04",
+            "NOT decided by this check: preservation of well-formedness by derived_observable / fits / roots / importers / readers, closure of "
+            "arithmetic over the operand-type matrix (complex partners), Covobs / cov_Obs validation, ranges with non-positive step as idl."),
+    "C05": ("symbolic execution of reweight / correlate / merge_obs / _reduce_deltas over enumerated chain layouts with symbolic data; counting argument by ghost induction",
+            "Proof: _reduce_deltas gathers by configuration number (never by position) and raises ValueError iff a requested configuration is "
+            "missing (pigeonhole argument supplied as three ghost inductions); reweight builds numerator and denominator from the weight's "
+            "samples on the observable's configuration NUMBERS, in both normalisation modes, sets the flag, and raises iff chains / ensembles / "
+            "configurations do not fit; correlate is the observable of per-configuration products and raises iff chains or lists differ; merge_obs "
+            "is the disjoint union of the chains with samples preserved, flag = or of the inputs as a Python bool (defect found and fixed); "
+            "Corr.reweight lifts timeslice-wise and passes the normalisation mode on.",
+            "DESIGN.md section 6 C05",
+            "Chain layouts (1..3 replicas, two ensembles) are enumerated, lengths / configuration numbers / samples symbolic. NOT decided: covariance "
+            "inputs (rejection), Corr.correlate, qtop_projection, inheritance of the flag through derived_observable (that is its result assembly)."),
     "C14": ("symbolic execution of the Corr methods with exact loop summaries + z3, contracts over all T and all undefined-slice patterns",
             "Proof (N = 1, real content). Each operator method (__add__, __sub__, __mul__, __truediv__, __neg__, __pow__, __abs__, reflected "
             "variants), each elementary function (log, exp, 12 functions through _apply_func_to_corr) and the index transformations reverse, "
@@ -24,6 +54,15 @@ CLAIMED = {
             "DESIGN.md section 6 C15",
             "Same abstraction as C14. NOT decided by this check: the log variants (composition through np.log and Corr multiplication), m_eff "
             "(all variants), plateau and fit; identity of fluctuations rests on C01."),
+    "C18": ("symbolic execution of the record loops as statement slices with the file length universally quantified; loop invariants over (position, records accepted)",
+            "Proof for two record loops: _extract_flowed_energy_density and the openQCD branch of _read_flow_obs, with the byte length L of the "
+            "file a free symbol (every truncation offset at once): on normal exit every accepted record lies completely before the cut "
+            "(pos0 + k*recsize <= L), fewer than 4 unread bytes remain, and a cut inside a record ends exceptionally. The invariant is "
+            "position == pos0 + k*recsize; it failed for _extract_flowed_energy_density (unchecked last block), which was fixed.",
+            "DESIGN.md section 6 C18",
+            "Assumed file model: read(n) returns min(n, remaining) bytes, struct.unpack raises unless the buffer has exactly calcsize bytes. NOT "
+            "decided: read_rwms, sfqcd branch of _read_flow_obs, read_ms5_xsf, read_pbp, sfcf text formats, json.gz / xml.gz / csv.gz archives; "
+            "that an uncut file is read without an exception."),
     "C20": ("exact finite evaluation of the AST tables + symbolic execution with z3 (all integers) + vjp identity over an uninterpreted K_n",
             "Proof. The module-level gamma matrices are read from the AST as exact Gaussian rationals and all Clifford / hermiticity / gamma5 "
             "relations and all 16 Grid_gamma branches are decided by exact arithmetic (finite domain, exhaustive). epsilon_tensor and "
